@@ -1105,9 +1105,9 @@ class HtmlWriter:
             raise skoolmacro.MacroParsingError("Unknown page ID: {}".format(page_id))
         if link_text == '':
             if anchor and page_id in self.page_ids and page_id in self.box_pages:
-                for item_anchor, title, paragraphs in self.box_pages[page_id]:
-                    if anchor[1:] == item_anchor:
-                        link_text = title
+                for item in self.box_pages[page_id]:
+                    if anchor[1:] == item[0]:
+                        link_text = item[1]
                         break
             if not link_text:
                 link_text = self.links[page_id][0]
